@@ -1752,6 +1752,91 @@ fn run_large(base: &World, acc: &mut Acc) {
                 run_variant(&c, w, &mut out);
             }
         }
+        // (d) damage at block boundaries: wire / gate indices 2^k - 1, 2^k, 2^k + 1 (k = 8..24) and
+        //     the points where blocks of 2^16 with one element between them would start
+        //     (65536, 131073, 196610, ...): whatever a validator does "per block" is decided there
+        let inputs: usize = honest.input_gates.iter().sum();
+        let mut points: BTreeSet<usize> = BTreeSet::new();
+        for k in 8..=24u32 {
+            for d in [-1i64, 0, 1] {
+                let x = (1i64 << k) + d;
+                points.insert(x as usize);
+                if x as usize >= inputs {
+                    points.insert(x as usize - inputs);
+                }
+            }
+        }
+        for j in 1..=12usize {
+            for x in [65536 * j + (j - 1), 65536 * j, 65536 * j + j] {
+                points.insert(x);
+                if x >= inputs {
+                    points.insert(x - inputs);
+                }
+            }
+        }
+        let points: Vec<usize> = points.into_iter().filter(|&g| g < n).collect();
+        let mut tok_at: BTreeMap<usize, usize> = BTreeMap::new();
+        {
+            let mut tok = 0usize;
+            let mut it = points.iter().peekable();
+            for (gi, g) in honest.gates.iter().enumerate() {
+                if it.peek() == Some(&&gi) {
+                    tok_at.insert(gi, tok);
+                    it.next();
+                }
+                tok += arity(g);
+            }
+        }
+        for &gi in &points {
+            let mut c = honest.clone();
+            set_op(&mut c.gates[gi], 0, value);
+            let mut w = b.clone();
+            w.faults = vec![MsgFault::ProgramNumReplace { index: tok_at[&gi], with: value.to_string() }];
+            run_variant(&c, w, &mut out);
+        }
+        // (e) the same for the register form of the circuit: instruction i reads a register that does not exist
+        if let Ok(reg) = guarded(|| rc::Circuit::from(&honest)) {
+            let ni = reg.insts.len();
+            let toks_of = |i: &rc::Inst| match i.op {
+                rc::Op::Not(_) => 2usize,
+                _ => 3,
+            };
+            let rpoints: Vec<usize> = points.iter().copied().chain([65536usize, 131073, 196610]).filter(|&i| i < ni).collect::<BTreeSet<_>>().into_iter().collect();
+            let mut rtok: BTreeMap<usize, usize> = BTreeMap::new();
+            {
+                let mut tok = 0usize;
+                let mut it = rpoints.iter().peekable();
+                for (ii, inst) in reg.insts.iter().enumerate() {
+                    if it.peek() == Some(&&ii) {
+                        rtok.insert(ii, tok);
+                        it.next();
+                    }
+                    tok += toks_of(inst);
+                }
+            }
+            let bad = rc::Reg(4_000_000_000);
+            for &ii in &rpoints {
+                let mut c = reg.clone();
+                match &mut c.insts[ii].op {
+                    rc::Op::Xor(rc::Xor(a, _)) | rc::Op::And(rc::And(a, _)) | rc::Op::Not(rc::Not(a)) => *a = bad,
+                    rc::Op::Input(rc::Input { party, .. }) => *party = 4_000_000_000,
+                }
+                let mut w = b.clone();
+                w.channel = Channel::JsonReg;
+                // token after the instruction's `out`
+                w.faults = vec![MsgFault::ProgramNumReplace { index: rtok[&ii] + 1, with: "4000000000".into() }];
+                let mut o = Obs::default();
+                if let Ok(o2) = guarded(|| {
+                    let mut o2 = Obs::default();
+                    inspect_reg(&c, false, &mut o2, seedtag);
+                    o2
+                }) {
+                    o = o2;
+                }
+                bump(&mut o.counters, "large_variants_register");
+                out.push((w, o));
+            }
+        }
         out
     });
     if let Ok(list) = result {
